@@ -526,7 +526,7 @@ class TopoART(BaseART):
                         return resonant_c
                 else:
                     T[c_] = np.nan
-                    if not no_match_reset:
+                    if m and not no_match_reset:
                         keep_searching = self._match_tracking(
                             cache, epsilon, self.params, match_tracking
                         )
